@@ -20,6 +20,7 @@ type Teamserver interface {
 	AgentAdd(agent *agent.Agent) []*agent.Agent
 
 	ListenerServiceExc2Add(Name, ExEndpoint string, client *ClientService) error
+	ListenerServiceExc2Remove(client *ClientService)
 	ListenerStartNotify(Listener map[string]any)
 
 	EventAppend(pk packager.Package) []packager.Package
